@@ -324,6 +324,8 @@ pub fn execute(sc: &RenderScenario, stats: &mut Stats) -> Outcome {
     let ctx_copies = ctxs.clone();
     let engine_before = format!("{:?}", t);
     let mut rot = 0usize;
+    // (target, ctx, result, bytes) of every reference run, for the order-independence pass
+    let mut firsts: Vec<(usize, usize, String, Vec<u8>)> = Vec::new();
 
     for (ti, target) in sc.targets.iter().enumerate() {
         let shape = shape_hash(target, &sc.templates);
@@ -363,6 +365,7 @@ pub fn execute(sc: &RenderScenario, stats: &mut Stats) -> Outcome {
             stats.add("ref_bytes", rf.bytes.len() as u64);
             log.bytes(&rf.bytes);
             log.str(&rf.result);
+            firsts.push((ti, ci, rf.result.clone(), rf.bytes.clone()));
             if let Some(v) = engine::take_end_state_violation() {
                 out.violations.push(Violation::new("C07", "end-state-not-empty", format!("target {} ctx {}: stack/loops/captures = {:?}", ti, ci, v)));
             }
@@ -618,6 +621,46 @@ pub fn execute(sc: &RenderScenario, stats: &mut Stats) -> Outcome {
     }
     if format!("{:?}", t) != engine_before {
         out.violations.push(Violation::new(prop, "engine-modified-by-render", "Debug(Tera) changed across renders".into()));
+    }
+    // ---- (e) purity across renders: a second instance of the same registry renders the same
+    // targets in the opposite order (under another hash-key stream); every result must be what
+    // the first instance produced, whatever was rendered before it on either instance
+    if firsts.len() >= 2 && out.violations.is_empty() {
+        ahash::sim::reset(Mode::PerInstance, sc.hash_base ^ 0x0DD0_0DD0_1234_4321);
+        let mut t2 = new_tera(&sc.config);
+        if let Ok(Ok(())) = catch(|| t2.add_raw_templates(sc.templates.iter().map(|(n, s)| (n.as_str(), s.as_str())))) {
+            for (ti, ci, res1, bytes1) in firsts.iter().rev() {
+                let mut w = SimWriter::new(WPlan::perfect());
+                engine::set_step_limit(engine::steps() + 50_000_000);
+                let rr = catch(|| run_target(&t2, &sc.targets[*ti], &ctxs[*ci], &mut w));
+                engine::clear_step_limit();
+                let _ = engine::take_end_state_violation();
+                match rr {
+                    Err(p) => out.violations.push(Violation::new("C07", "panic-in-render", format!("reverse-order target {} ctx {}: {}", ti, ci, p))),
+                    Ok(r2) => {
+                        stats.inc("reverse_order_renders");
+                        if &rtag(&r2) != res1 || &w.accepted != bytes1 {
+                            out.violations.push(Violation::new(
+                                prop,
+                                "render-depends-on-earlier-renders",
+                                format!(
+                                    "target {} ctx {}: rendered after the other targets on one instance: {} {:?}; rendered before them on a second instance of the same registry: {} {:?}",
+                                    ti,
+                                    ci,
+                                    res1,
+                                    engine::trunc(&String::from_utf8_lossy(bytes1)),
+                                    rtag(&r2),
+                                    engine::trunc(&String::from_utf8_lossy(&w.accepted))
+                                ),
+                            ));
+                            break;
+                        }
+                    }
+                }
+            }
+        } else {
+            out.violations.push(Violation::new("C10", "acceptance-depends-on-history", "a second instance refused the batch the first one accepted".into()));
+        }
     }
     stats.sample(4, || {
         serde_json::json!({
